@@ -26,6 +26,7 @@ import Drivers.Kexact
 import Drivers.SmoothInterp
 import Drivers.Rcb
 import Drivers.Ugrid
+import Drivers.GatherMeshb
 import Drivers.Repro
 import Drivers.Mixed
 
@@ -59,6 +60,7 @@ def main (args : List String) : IO UInt32 := do
   | "smoothinterp" :: rest => Drivers.SmoothInterp.run rest
   | "rcb" :: rest => Drivers.Rcb.run rest
   | "ugrid" :: rest => Drivers.Ugrid.run rest
+  | "gathermeshb" :: rest => Drivers.GatherMeshb.run rest
   | "repro" :: rest => Drivers.Repro.run rest
   | "mixed" :: rest => Drivers.Mixed.run rest
   | _ =>
